@@ -1,6 +1,15 @@
-"""C15 — strength scaling and scheduled transforms: exact correspondence on dyadic rationals + independent oracle."""
+"""C15 — strength scaling and scheduled transforms: exact correspondence on dyadic rationals + independent oracles.
+
+Oracles (all reproducible from a per-case seed, see C15.state_case / behaviour_case / sched_case):
+  * state: parameter ranges after scale(1) / scale(0) / monotone / last-factor-only / member histories, on trees whose leaves include the
+    package's inheriting subclasses and user subclasses (inheriting or overriding _scale_strength), alone and inside compositions;
+  * behaviour: an object with a factor history vs a fresh object that got the last factor only vs members scaled directly -- compared by what
+    they sample (magnitude samplers), record (ctx) and return under the same seeded rng; a second fresh copy is the control;
+  * scheduled: wrapped object trees / lists / factory configs under simulated round-robin workers, per sample reported strength, parameter
+    state and behaviour equal to the wrapped transform scaled to schedule(b)."""
 import copy
 import json
+import pickle
 import random
 from fractions import Fraction as Fr
 
@@ -69,15 +78,57 @@ def to_model(t):
 
 
 # ----------------------------------------------------------------------------------------------
-# recipes with dyadic parameters
+# user subclasses: a class that INHERITS its _scale_strength (like KDRandAugmentCustom <- KDRandAugment or
+# BYOLTransform <- KDComposeTransform in the package) or overrides it and delegates to the parent
 # ----------------------------------------------------------------------------------------------
-def leaf_recipes(rng):
+_USER_SUBCLASSES = {}
+
+
+def user_subclass(cls, how):
+    """how: None/False -> cls itself, "inherit" -> empty subclass, "override" -> subclass whose own _scale_strength delegates"""
+    if not how:
+        return cls
+    from kappadata.transforms.base.kd_transform import KDTransform
+    if how == "override" and cls._scale_strength is KDTransform._scale_strength:
+        how = "inherit"         # a class without strength support stays one
+    key = (cls, how)
+    if key not in _USER_SUBCLASSES:
+        name = ("Inheriting" if how == "inherit" else "Overriding") + cls.__name__
+        body = {"__doc__": f"user subclass of {cls.__name__} ({how})", "__module__": __name__}
+        if how == "override":
+            def _scale_strength(self, factor, _parent=cls):
+                return _parent._scale_strength(self, factor)
+            body["_scale_strength"] = _scale_strength
+        sub = type(name, (cls,), body)
+        sub.__qualname__ = name
+        globals()[name] = sub          # importable by name: instances can be pickled
+        _USER_SUBCLASSES[key] = sub
+    return _USER_SUBCLASSES[key]
+
+
+# ----------------------------------------------------------------------------------------------
+# recipes with dyadic parameters; every thunk takes `sub` (see user_subclass) for the class it instantiates
+# ----------------------------------------------------------------------------------------------
+# what a leaf accepts/produces when it is applied (only used to build trees that can be applied as a whole)
+PIL_LEAVES = {"jitter", "jitter-partial", "blur-pil", "blur-tv", "solarize-int", "grayscale", "rotation", "randaug", "randaug-custom",
+              "randaug-uniform", "rnd-jitter", "rnd-blur-pil", "rnd-blur-tv", "rnd-solarize", "crop(no-strength)", "byol"}
+TENSOR_LEAVES = {"jitter", "jitter-partial", "blur-tv", "solarize-float", "grayscale", "rotation", "threshold", "gauss-noise",
+                 "gauss-noise-uniform", "uniform-noise", "rnd-jitter", "rnd-blur-tv", "rnd-threshold", "rnd-noise", "crop(no-strength)"}
+
+
+def leaf_recipes(rng, exact=True):
+    """exact=True: only recipes whose parameters are dyadic (the float formulas of the real code are exact, needed for the comparison with
+    the Lean model and for the state oracle); exact=False adds the package's fixed pipelines with non-dyadic parameters (only used by
+    oracles that compare real objects with real objects)"""
     import kappadata.transforms as T
     from kappadata.transforms.kd_random_rotation import KDRandomRotation
+    from kappadata.common.transforms import BYOLTransform, BYOLTransform0, BYOLTransform1
+    from kappadata.common.transforms.mugs_transforms import MUGSStrongTransform, MUGSStrongLocalTransform
     R = []
+    C = user_subclass
 
-    def jitter():
-        t = T.KDColorJitter(brightness=0.4, contrast=0.4, saturation=0.2, hue=0.1)
+    def jitter(sub=None):
+        t = C(T.KDColorJitter, sub)(brightness=0.4, contrast=0.4, saturation=0.2, hue=0.1)
         for name in ("brightness", "contrast", "saturation"):
             lb, ub = dy(rng, 0, 1), dy(rng, 1, 2)
             setattr(t, f"og_{name}_lb", lb); setattr(t, f"{name}_lb", lb)
@@ -87,8 +138,8 @@ def leaf_recipes(rng):
         t.og_hue_ub = t.hue_ub = ub
         return t
 
-    def jitter_partial():
-        t = T.KDColorJitter(brightness=0.5, contrast=0, saturation=0, hue=0)
+    def jitter_partial(sub=None):
+        t = C(T.KDColorJitter, sub)(brightness=0.5, contrast=0, saturation=0, hue=0)
         lb, ub = dy(rng, 0, 1), dy(rng, 1, 2)
         t.og_brightness_lb = t.brightness_lb = lb
         t.og_brightness_ub = t.brightness_ub = ub
@@ -102,36 +153,63 @@ def leaf_recipes(rng):
         t.og_sigma_ub = t.sigma_ub = ub
         return t
 
+    def randaug(cls, **kw):
+        return cls(num_ops=2, magnitude=rng.choice([2.5, 5, 7.5]), fill_color=[0, 0, 0], interpolation="bilinear",
+                   magnitude_min=rng.choice([0., 1.25, 2.5]), **kw)
+
     R.append(("jitter", jitter))
     R.append(("jitter-partial", jitter_partial))
-    R.append(("blur-pil", lambda: blur(T.KDGaussianBlurPIL)))
-    R.append(("blur-tv", lambda: blur(T.KDGaussianBlurTV, kernel_size=3)))
-    R.append(("solarize-int", lambda: T.KDSolarize(threshold=rng.randint(0, 256))))
-    R.append(("solarize-float", lambda: T.KDSolarize(threshold=dy(rng, 0, 1))))
-    R.append(("grayscale", lambda: T.KDRandomGrayscale(p=dy(rng, 0, 1))))
-    R.append(("rotation", lambda: KDRandomRotation(degrees=rng.randint(0, 180))))
-    R.append(("threshold", lambda: T.KDThreshold(threshold=dy(rng, 0.25, 0.75), threshold_std=dy(rng, 0, 0.25),
-                                                 threshold_min=0.0, threshold_max=1.0)))
-    R.append(("gauss-noise", lambda: T.KDAdditiveGaussianNoise(std=0.5, magnitude=dy(rng, 0.5, 1), magnitude_std=dy(rng, 0.25, 0.5),
-                                                                magnitude_min=dy(rng, 0, 0.5), magnitude_max=1.0)))
-    R.append(("uniform-noise", lambda: T.KDAdditiveUniformNoise(magnitude=dy(rng, 0.5, 1))))
-    R.append(("randaug", lambda: T.KDRandAugment(num_ops=2, magnitude=5, fill_color=[0, 0, 0], interpolation="bilinear", magnitude_std=1.25)))
-    R.append(("rnd-jitter", lambda: T.KDRandomColorJitter(p=0.8, brightness=0.5, contrast=0.25, saturation=0.5, hue=0.25)))
-    R.append(("rnd-blur-pil", lambda: T.KDRandomGaussianBlurPIL(p=0.5, sigma=(0.5, 2.0))))
-    R.append(("rnd-blur-tv", lambda: T.KDRandomGaussianBlurTV(p=0.5, kernel_size=3, sigma=(0.5, 2.0))))
-    R.append(("rnd-solarize", lambda: T.KDRandomSolarize(p=0.5, threshold=rng.randint(0, 256))))
-    R.append(("rnd-threshold", lambda: T.KDRandomThreshold(p=0.5, threshold=0.5, threshold_std=0.25)))
-    R.append(("rnd-noise", lambda: T.KDRandomAdditiveGaussianNoise(p=0.5, std=0.5, magnitude=0.75, magnitude_std=0.25)))
-    R.append(("crop(no-strength)", lambda: T.KDRandomCrop(size=8)))
+    R.append(("blur-pil", lambda sub=None: blur(C(T.KDGaussianBlurPIL, sub))))
+    R.append(("blur-tv", lambda sub=None: blur(C(T.KDGaussianBlurTV, sub), kernel_size=3)))
+    R.append(("solarize-int", lambda sub=None: C(T.KDSolarize, sub)(threshold=rng.randint(0, 256))))
+    R.append(("solarize-float", lambda sub=None: C(T.KDSolarize, sub)(threshold=dy(rng, 0, 1))))
+    R.append(("grayscale", lambda sub=None: C(T.KDRandomGrayscale, sub)(p=dy(rng, 0, 1))))
+    R.append(("rotation", lambda sub=None: C(KDRandomRotation, sub)(degrees=rng.randint(0, 180))))
+    R.append(("threshold", lambda sub=None: C(T.KDThreshold, sub)(threshold=dy(rng, 0.25, 0.75), threshold_std=dy(rng, 0, 0.25),
+                                                                  threshold_min=0.0, threshold_max=1.0)))
+    R.append(("gauss-noise", lambda sub=None: C(T.KDAdditiveGaussianNoise, sub)(
+        std=0.5, magnitude=dy(rng, 0.5, 1), magnitude_std=dy(rng, 0.25, 0.5), magnitude_min=dy(rng, 0, 0.5), magnitude_max=1.0)))
+    R.append(("gauss-noise-uniform", lambda sub=None: C(T.KDAdditiveGaussianNoise, sub)(
+        std=0.5, magnitude=dy(rng, 0.5, 1), magnitude_min=dy(rng, 0, 0.5))))
+    R.append(("uniform-noise", lambda sub=None: C(T.KDAdditiveUniformNoise, sub)(magnitude=dy(rng, 0.5, 1))))
+    R.append(("randaug", lambda sub=None: C(T.KDRandAugment, sub)(num_ops=2, magnitude=5, fill_color=[0, 0, 0], interpolation="bilinear",
+                                                                  magnitude_std=1.25)))
+    R.append(("randaug-custom", lambda sub=None: randaug(C(T.KDRandAugmentCustom, sub), magnitude_std=rng.choice([0.625, 1.25, 2.5]))))
+    R.append(("randaug-uniform", lambda sub=None: randaug(C(rng.choice([T.KDRandAugment, T.KDRandAugmentCustom]), sub),
+                                                          magnitude_std=float("inf"))))
+    R.append(("rnd-jitter", lambda sub=None: C(T.KDRandomColorJitter, sub)(p=0.8, brightness=0.5, contrast=0.25, saturation=0.5, hue=0.25)))
+    R.append(("rnd-blur-pil", lambda sub=None: C(T.KDRandomGaussianBlurPIL, sub)(p=0.5, sigma=(0.5, 2.0))))
+    R.append(("rnd-blur-tv", lambda sub=None: C(T.KDRandomGaussianBlurTV, sub)(p=0.5, kernel_size=3, sigma=(0.5, 2.0))))
+    R.append(("rnd-solarize", lambda sub=None: C(T.KDRandomSolarize, sub)(p=0.5, threshold=rng.randint(0, 256))))
+    R.append(("rnd-threshold", lambda sub=None: C(T.KDRandomThreshold, sub)(p=0.5, threshold=0.5, threshold_std=0.25)))
+    R.append(("rnd-noise", lambda sub=None: C(T.KDRandomAdditiveGaussianNoise, sub)(p=0.5, std=0.5, magnitude=0.75, magnitude_std=0.25)))
+    R.append(("crop(no-strength)", lambda sub=None: C(T.KDRandomCrop, sub)(size=8)))
+    # the package's own pipeline class built on KDComposeTransform (inherits _scale_strength), dyadic parameters
+    R.append(("byol", lambda sub=None: C(BYOLTransform, sub)(
+        size=8, norm=None, flip_p=0.5, color_jitter_p=rng.choice([0.75, 1.0]), brightness=0.5, contrast=0.5, saturation=0.25, hue=0.125,
+        gaussian_blur_p=rng.choice([0.5, 1.0]), sigma=(0.5, 2.0), grayscale_p=0.25, solarize_p=rng.choice([0.25, 1.0]),
+        solarize_threshold=128)))
+    if not exact:
+        R.append(("byol0", lambda sub=None: C(BYOLTransform0, sub)(size=8)))
+        R.append(("byol1", lambda sub=None: C(BYOLTransform1, sub)(size=8)))
+        R.append(("mugs-strong", lambda sub=None: C(MUGSStrongTransform, sub)(size=8)))
+        R.append(("mugs-strong-local", lambda sub=None: C(MUGSStrongLocalTransform, sub)(size=8)))
     return R
 
 
-def gen_tree(rng, leaves, depth):
+def gen_tree(rng, leaves, depth, subs=0.25):
+    """random composition; a share `subs` of the leaves / of the compositions is an instance of a user subclass"""
     import kappadata.transforms as T
     if depth == 0 or rng.random() < 0.4:
         label, thunk = rng.choice(leaves)
+        if rng.random() < subs:
+            how = rng.choice(["inherit", "inherit", "override"])
+            return f"{how}:{label}", thunk(sub=how)
         return label, thunk()
-    kids = [gen_tree(rng, leaves, depth - 1) for _ in range(rng.randint(1, 3))]
+    kids = [gen_tree(rng, leaves, depth - 1, subs) for _ in range(rng.randint(1, 3))]
+    if rng.random() < subs:
+        how = rng.choice(["inherit", "inherit", "override"])
+        return f"{how}:compose[" + ",".join(k[0] for k in kids) + "]", user_subclass(T.KDComposeTransform, how)([k[1] for k in kids])
     return "compose[" + ",".join(k[0] for k in kids) + "]", T.KDComposeTransform([k[1] for k in kids])
 
 
@@ -218,6 +296,177 @@ def leq_state(a, b, c):
     return a == b == c
 
 
+# ----------------------------------------------------------------------------------------------
+# observing what a transform DOES (sampled magnitudes, recorded ctx, outputs) -- used by the behaviour oracles
+# ----------------------------------------------------------------------------------------------
+_INPUTS = {}
+
+
+def _input(kind):
+    """a fixed small input: 'pil' (RGB image) or 'tensor' (float image in [0, 1])"""
+    if not _INPUTS:
+        import numpy as np
+        import torch
+        from PIL import Image
+        g = np.random.default_rng(12345)
+        _INPUTS["pil"] = Image.fromarray(g.integers(0, 255, size=(16, 16, 3), dtype=np.uint8), mode="RGB")
+        _INPUTS["tensor"] = torch.from_numpy(g.random((3, 16, 16))).float()
+    x = _INPUTS[kind]
+    return x.copy() if kind == "pil" else x.clone()      # some transforms work in place
+
+
+def _nodes(t, scalable_only=False):
+    """t and every KDTransform reachable from it through attributes / lists (no attribute names involved);
+    scalable_only: only transforms with strength support that are reached through transforms with strength support (the members of a
+    composition in the sense of the property -- what sits below a wrapper without strength support is not promised to be scaled)"""
+    from kappadata.transforms.base.kd_transform import KDTransform
+    out, seen = [], set()
+
+    def walk(v, depth):
+        if id(v) in seen or depth > 8:
+            return
+        if isinstance(v, KDTransform):
+            seen.add(id(v))
+            if scalable_only and type(v)._scale_strength is KDTransform._scale_strength:
+                return
+            out.append(v)
+            for w in list(vars(v).values()):
+                walk(w, depth + 1)
+        elif isinstance(v, (list, tuple)):
+            seen.add(id(v))
+            for w in v:
+                walk(w, depth + 1)
+    walk(t, 0)
+    return out
+
+
+def _same(a, b):
+    """structural equality of observations (nan equals nan)"""
+    try:
+        import numpy as np
+        import torch
+        from PIL import Image
+        if isinstance(a, Image.Image) or isinstance(b, Image.Image):
+            return (isinstance(a, Image.Image) and isinstance(b, Image.Image) and a.mode == b.mode and a.size == b.size
+                    and a.tobytes() == b.tobytes())
+        if torch.is_tensor(a) or torch.is_tensor(b):
+            if not (torch.is_tensor(a) and torch.is_tensor(b)) or a.shape != b.shape or a.dtype != b.dtype:
+                return False
+            return bool(((a == b) | ((a != a) & (b != b))).all())
+        if isinstance(a, np.ndarray) or isinstance(b, np.ndarray):
+            a, b = np.asarray(a), np.asarray(b)
+            return a.shape == b.shape and bool(((a == b) | ((a != a) & (b != b))).all())
+        if isinstance(a, dict) or isinstance(b, dict):
+            return (isinstance(a, dict) and isinstance(b, dict) and list(sorted(map(str, a))) == list(sorted(map(str, b)))
+                    and all(_same(a[k], b[k]) for k in a))
+        if isinstance(a, (list, tuple)) or isinstance(b, (list, tuple)):
+            return (isinstance(a, (list, tuple)) and isinstance(b, (list, tuple)) and len(a) == len(b)
+                    and all(_same(x, y) for x, y in zip(a, b)))
+        if isinstance(a, float) and isinstance(b, float) and a != a and b != b:
+            return True
+        return bool(a == b)
+    except Exception:
+        return a is b
+
+
+def _brief(o, depth=0):
+    """short JSON-able rendering of an observation for the replay file"""
+    try:
+        import hashlib
+        import torch
+        from PIL import Image
+        if isinstance(o, Image.Image):
+            return f"PIL{o.size}#{hashlib.sha1(o.tobytes()).hexdigest()[:8]}"
+        if torch.is_tensor(o):
+            return f"tensor{tuple(o.shape)}#{hashlib.sha1(o.detach().cpu().numpy().tobytes()).hexdigest()[:8]}"
+        if isinstance(o, dict):
+            return {str(k): _brief(v, depth + 1) for k, v in list(o.items())[:12]}
+        if isinstance(o, (list, tuple)):
+            return [_brief(v, depth + 1) for v in list(o)[:12]]
+        if isinstance(o, (int, float, str, bool)) or o is None:
+            return o
+        return repr(o)[:60]
+    except Exception:
+        return "?"
+
+
+def observe_calls(t, kind, seed, n=5):
+    """apply `t` n times to the fixed input with a freshly seeded rng: per call ("ok", recorded ctx, output) or ("exc", type)"""
+    import numpy as np
+    import torch
+    torch.manual_seed(seed % (2 ** 31))
+    try:
+        t.set_rng(np.random.default_rng(seed))
+    except Exception as e:
+        return [("exc-set_rng", type(e).__name__)]
+    out = []
+    for _ in range(n):
+        ctx = {}
+        try:
+            y = t(_input(kind), ctx=ctx)
+            out.append(("ok", ctx, y))
+        except Exception as e:          # raised by the code under test: an outcome that is compared
+            out.append(("exc", type(e).__name__))
+    return out
+
+
+def observe_samplers(t, seed, n=12):
+    """draws of every magnitude sampler below `t` with a freshly seeded rng: list of (og_min, og_max, [draws]) in traversal order"""
+    import numpy as np
+    out = []
+    for node in _nodes(t):
+        ms = vars(node).get("magnitude_sampler")
+        if ms is None or not callable(getattr(ms, "sample", None)):
+            continue
+        try:
+            m = to_model(node)
+            lo, hi = (Fr(*m["v"][2]), Fr(*m["v"][3])) if m.get("k") == "mag" else (None, None)
+        except Exception:
+            lo = hi = None
+        g = np.random.default_rng(seed)
+        try:
+            draws = [float(ms.sample(g)) for _ in range(n)]
+        except Exception as e:
+            draws = ["exc:" + type(e).__name__]
+        out.append((lo, hi, draws))
+    return out
+
+
+def n_ok(calls):
+    return sum(1 for c in calls if c[0] == "ok")
+
+
+def gen_history(rng):
+    """factor history with many exact 0 / 1 entries (the boundaries are where hidden state gets created)"""
+    def one():
+        r = rng.random()
+        if r < 0.3:
+            return 0.0
+        if r < 0.5:
+            return 1.0
+        return rng.randint(1, 31) / 32
+    return [one() for _ in range(rng.randint(2, 5))]
+
+
+def scale_members_directly(t, factor):
+    """give `factor` to the tree AND to every member with strength support directly (independent of how compositions forward it)"""
+    t.scale_strength(factor)
+    for node in _nodes(t, scalable_only=True):
+        node.scale_strength(factor)
+    return t
+
+
+def copy_used(t, how):
+    """a copy of a USED object, the way a dataloader hands transforms to its workers"""
+    if how == "pickle":
+        try:
+            return pickle.loads(pickle.dumps(t))
+        except Exception:
+            return copy.deepcopy(t)
+    return copy.deepcopy(t)
+
+
+
 class C15(PropertyCheck):
     pid = "C15"
     claimed = True
@@ -243,7 +492,9 @@ class C15(PropertyCheck):
     level_text = ("Lean theorems (KDVerif.Props.C15) for all parameter values: scale 1 = constructed ranges, scale 0 = weakest setting, both bounds monotone in the "
                   "factor and inside [identity, constructed], only the last factor counts through any nesting (scale_last_only over transform trees), and "
                   "scheduled_batch_index: worker b%W computes batch index b for every sample of global batch b, for all W, B. Exact correspondence with the real "
-                  "_scale_strength on dyadic rationals over random trees and factor sequences; simulated workers for the scheduled transform.")
+                  "_scale_strength on dyadic rationals over random trees and factor sequences; simulated workers for the scheduled transform. "
+                  "Independent behaviour oracle on the real code: objects with factor histories (used / copied / pickled in between) against fresh objects "
+                  "with the last factor only, compared by sampled magnitudes, recorded ctx and outputs; scheduled transform over arbitrary wrapped trees/configs.")
     level_note = "float rounding of the formulas for non-dyadic parameters is not covered by the theorems; partial final batches are outside the claim"
 
     # ---- scale correspondence + oracle -------------------------------------------------------
@@ -257,7 +508,12 @@ class C15(PropertyCheck):
         res = CorrResult()
         res.rule = ("random transform trees (leaves = every class with strength support, dyadic parameters; composed up to depth 3) x factor sequences of length 1-4 "
                     "from {0, 1, k/32}: state after every factor compared exactly (rationals) with the Lean model; oracle: scale(1)=constructed, scale(0)=weakest, "
-                    "monotone, last-factor-only; scheduled: simulated workers W in 1..5, B in 1..4; distinct = (tree shape, factors)")
+                    "monotone, last-factor-only; scheduled: simulated workers W in 1..5, B in 1..4; distinct = (tree shape, factors). Leaves include the package's "
+                    "inheriting subclasses (KDRandAugmentCustom, BYOLTransform, MUGS*) and user subclasses (inheriting / overriding _scale_strength), also as "
+                    "compositions. Behaviour oracle: object with a factor history (0/1-heavy; applied / deep-copied / pickled between factors; sibling instance "
+                    "scaled in between; float or numpy factors) vs fresh object with the last factor only and vs members scaled directly: same seeded rng -> same "
+                    "sampler draws, ctx, outputs; draws inside range*f, zero at 0, not collapsed. Scheduled-general: wrapped object trees / lists / factory configs, "
+                    "several schedules, per sample state + ctx + output equal to the wrapped transform scaled to schedule(b)")
         rng = self.rng
         leaves = leaf_recipes(rng)
         n = 250 if self.tier == "quick" else 4000
@@ -265,9 +521,14 @@ class C15(PropertyCheck):
         for i in range(n):
             try:
                 label, t, factors = self.one_case(rng, leaves, depth=0 if i < len(leaves) * 2 else rng.randint(1, 3))
-                if i < len(leaves) * 2:
+                if i < len(leaves):
                     label, thunk = leaves[i % len(leaves)]
                     t = thunk()
+                elif i < len(leaves) * 2:
+                    # every class once as an inheriting user subclass inside a composition
+                    import kappadata.transforms as T
+                    label, thunk = leaves[i % len(leaves)]
+                    label, t = f"compose[inherit:{label}]", T.KDComposeTransform([thunk(sub="inherit")])
                 m0 = to_model(t)
             except Unmodelled as e:
                 res.disagreements.append(Disagreement({"class": str(e)}, "no model", "supports_scale_strength", "class with strength support is not modelled"))
@@ -302,23 +563,58 @@ class C15(PropertyCheck):
                 res.disagreements.append(Disagreement(dict(case, step=k), model_states[k], states[k], "state after scale_strength differs"))
             if len(res.samples) < 3 and m0["k"] == "compose":
                 res.samples.append({"tree": label, "factors": [str(fr(f)) for f in factors], "state_after_last": states[-1]})
-        # independent oracle on fresh instances
+        # independent oracle on fresh instances (every case reproducible from its own seed)
         for i in range(n):
-            label, thunk = leaves[i % len(leaves)] if i < 3 * len(leaves) else (None, None)
+            case_seed = rng.getrandbits(31)
             try:
-                if thunk is None:
-                    label, t = gen_tree(rng, leaves, rng.randint(1, 2))
-                else:
-                    t = thunk()
-                f = self.oracle(label, t, rng)
+                f = self.state_case(case_seed, i if i < 3 * len(leaves) else None)
             except Unmodelled:
                 continue
             res.cases += 1
             res.bump("oracle")
             if f is not None and not any(g.key == f.key for g in res.failures):
                 res.failures.append(f)
+        # behaviour-level oracle (sampled magnitudes, recorded ctx, outputs) over factor histories on the same object
+        n_leaves = len(leaf_recipes(random.Random(0), exact=False))
+        nb = 260 if self.tier == "quick" else 4000
+        for i in range(nb):
+            case_seed = rng.getrandbits(31)
+            forced = i if i < 3 * n_leaves else None
+            f = self.behaviour_case(case_seed, forced, res.bump)
+            res.cases += 1
+            res.bump("behaviour")
+            res.nontrivial.add(("behaviour", case_seed, forced))
+            if f is not None and not any(g.key == f.key for g in res.failures):
+                res.failures.append(f)
         self.scheduled(res)
+        for i in range(40 if self.tier == "quick" else 600):
+            case_seed = rng.getrandbits(31)
+            f = self.sched_case(case_seed, res.bump)
+            res.cases += 1
+            res.bump("scheduled-general")
+            res.nontrivial.add(("sched-general", case_seed))
+            if f is not None and not any(g.key == f.key for g in res.failures):
+                res.failures.append(f)
         return res
+
+    def state_case(self, case_seed, leaf=None):
+        """one case of the state oracle, reproducible from (case_seed, leaf): a single leaf / a leaf as inheriting subclass inside a
+        composition / a random tree"""
+        import kappadata.transforms as T
+        crng = random.Random(f"state:{case_seed}")
+        leaves = leaf_recipes(crng)
+        if leaf is None:
+            label, t = gen_tree(crng, leaves, crng.randint(1, 2))
+        else:
+            label, thunk = leaves[leaf % len(leaves)]
+            if (leaf // len(leaves)) % 3 == 2:
+                label, t = f"compose[inherit:{label}]", T.KDComposeTransform([thunk(sub="inherit")])
+            else:
+                t = thunk()
+        f = self.oracle(label, t, crng)
+        if f is not None:
+            f.input = dict(f.input, oracle="state", case_seed=case_seed, leaf=leaf)
+        return f
 
     def oracle(self, label, t, rng):
         t0 = copy.deepcopy(t)
@@ -363,6 +659,266 @@ class C15(PropertyCheck):
         except AssertionError as e:
             return Failure(f"strength:{label.split('[')[0]}:assert", f"{label}: scale_strength raises AssertionError for a valid factor", inp, "no assertion", str(e))
         return None
+
+    # ---- behaviour oracle: what the scaled transform samples / records / returns --------------------
+    def behaviour_case(self, case_seed, forced=None, stats=None):
+        """One case of the behaviour-level oracle, reproducible from (case_seed, forced).
+
+        A transform tree goes through a factor history (optionally being applied / deep-copied / pickled between the factors, with a
+        sibling instance of different configuration scaled in between); then it is compared with a FRESH copy of the same tree that only
+        got the last factor: same seeded rng -> same draws of every magnitude sampler, same recorded ctx, same outputs ("the result
+        depends only on the last factor given"). History ending in 1: same as the never-scaled tree ("scaling by 1 restores exactly...").
+        Last factor 0: every magnitude drawn is 0; any last factor f: draws inside the constructed range times f and, for f > 0, not
+        collapsed to a point when the constructed distribution is not a point. A second fresh copy is the control: cases in which two
+        fresh copies do not agree with each other (randomness not controlled by set_rng) are not judged."""
+        import numpy as np
+        from kappadata.transforms import KDComposeTransform
+        crng = random.Random(f"behaviour:{case_seed}")
+        leaves = leaf_recipes(crng, exact=False)
+        kind = crng.choice(["pil", "tensor"])
+        if forced is not None:
+            label, thunk = leaves[forced % len(leaves)]
+            variant = (forced // len(leaves)) % 3
+            if variant == 0:
+                t0 = thunk()
+            elif variant == 1:
+                label, t0 = f"compose[inherit:{label}]", KDComposeTransform([thunk(sub="inherit")])
+            else:
+                label, t0 = f"compose[compose[{label}]]", KDComposeTransform([KDComposeTransform([thunk()])])
+            kinds = ["pil", "tensor"]
+        else:
+            r = crng.random()
+            if r < 0.85:
+                allowed = PIL_LEAVES if kind == "pil" else TENSOR_LEAVES
+                pool = [l for l in leaves if l[0] in allowed]
+            else:
+                pool = leaves
+            label, t0 = gen_tree(crng, pool, crng.randint(0, 2))
+            kinds = [kind, "tensor" if kind == "pil" else "pil"]
+        history = gen_history(crng)
+        mode = crng.choice(["plain", "applied-between", "deepcopy-between", "pickle-between"])
+        as_np = crng.random() < 0.2
+        conv = (lambda f: np.float64(f)) if as_np else (lambda f: f)
+        seed = crng.getrandbits(31)
+        root = label.split("[")[0]
+        inp = {"oracle": "behaviour", "case_seed": case_seed, "forced": forced, "tree": label, "history": [str(fr(f)) for f in history],
+               "mode": mode, "factor_type": "numpy.float64" if as_np else "float", "input": kind}
+        last = history[-1]
+        try:
+            never = copy.deepcopy(t0)
+            fresh = copy.deepcopy(t0); fresh.scale_strength(conv(last))
+            control = copy.deepcopy(t0); control.scale_strength(conv(last))
+            direct = scale_members_directly(copy.deepcopy(t0), conv(last))
+            st_fresh, st_direct = current_state(to_model(fresh)), current_state(to_model(direct))
+        except Exception as e:      # the tree cannot be scaled at all: nothing to compare a history with (the state oracle judges this)
+            if stats is not None:
+                stats(f"behaviour:fresh-raises:{type(e).__name__}")
+            return None
+        if st_fresh != st_direct:
+            return Failure(f"strength:{root}:members", f"{label}: scale_strength({last}) on the composition leaves members in another state than giving "
+                           f"{last} to every member with strength support directly (the factor does not reach every member)", inp, st_direct, st_fresh)
+        try:
+            used = copy.deepcopy(t0)
+            sibling = copy.deepcopy(t0)
+            for i, f in enumerate(history):
+                used.scale_strength(conv(f))
+                # another instance of the same classes is alive and gets other factors at the same time
+                sibling.scale_strength(conv(history[(i + 1) % len(history)]))
+                if mode == "applied-between":
+                    for k in kinds:
+                        if n_ok(observe_calls(used, k, 99 + i, n=2)):
+                            break
+                elif mode == "deepcopy-between":
+                    used = copy_used(used, "deepcopy")
+                elif mode == "pickle-between":
+                    used = copy_used(used, "pickle")
+            sibling.scale_strength(conv(0.0 if last != 0 else 1.0))
+        except Exception as e:
+            return Failure(f"strength:{root}:history-raises", f"{label}: the factor history {history} raises {type(e).__name__} although the same transform "
+                           f"accepts the factor {last} when it is the only one", inp, "no exception", f"{type(e).__name__}: {e}"[:200])
+        if stats is not None:
+            stats(f"behaviour:{mode}")
+
+        # --- magnitude samplers -------------------------------------------------------------
+        s_used, s_fresh, s_ctrl, s_never = (observe_samplers(o, seed) for o in (used, fresh, control, never))
+        if s_fresh and _same([d for _, _, d in s_fresh], [d for _, _, d in s_ctrl]) and len(s_used) == len(s_fresh) == len(s_never):
+            if stats is not None:
+                stats("behaviour:samplers-judged")
+            for j, ((lo, hi, du), (_, _, df), (_, _, dn)) in enumerate(zip(s_used, s_fresh, s_never)):
+                if not _same(du, df):
+                    return Failure(f"strength:{root}:history-sampled", f"{label}: after the factor history {history} magnitude sampler #{j} draws other "
+                                   f"values than the same transform scaled only by {last} (same seeded rng): the sampled range depends on the history",
+                                   inp, df, du)
+                nums = [d for d in du if isinstance(d, float)]
+                if len(nums) != len(du) or lo is None:
+                    continue
+                if last == 1 and not _same(du, dn):
+                    return Failure(f"strength:{root}:scale-one-sampled", f"{label}: history {history} ends with factor 1 but magnitude sampler #{j} does not "
+                                   f"draw what the constructed transform draws (same seeded rng)", inp, dn, du)
+                if last == 0 and any(d != 0 for d in nums):
+                    return Failure(f"strength:{root}:scale-zero-sampled", f"{label}: history {history} ends with factor 0 but magnitude sampler #{j} draws "
+                                   f"non-zero magnitudes", inp, 0.0, du)
+                eps = 1e-9
+                if any(not (float(lo) * last - eps <= d <= float(hi) * last + eps) for d in nums):
+                    return Failure(f"strength:{root}:range-sampled", f"{label}: history {history}: magnitude sampler #{j} draws outside the constructed range "
+                                   f"[{float(lo)}, {float(hi)}] times {last}", inp, [float(lo) * last, float(hi) * last], du)
+                nn = [d for d in dn if isinstance(d, float)]
+                if last > 0 and len(nn) == len(dn) and max(nn) - min(nn) > 1e-6 and max(nums) - min(nums) <= 0:
+                    return Failure(f"strength:{root}:collapsed-sampled", f"{label}: history {history}: magnitude sampler #{j} is collapsed to the single value "
+                                   f"{nums[0]} although the constructed distribution is not a point and the factor is {last}", inp, "spread > 0", du)
+
+        # --- recorded ctx and outputs -------------------------------------------------------
+        best = None
+        for k in kinds:
+            c_fresh = observe_calls(fresh, k, seed)
+            if best is None or n_ok(c_fresh) > n_ok(best[1]):
+                best = (k, c_fresh)
+            if n_ok(c_fresh) == len(c_fresh):
+                break
+        k, c_fresh = best
+        if n_ok(c_fresh) == 0:
+            if stats is not None:
+                stats("behaviour:calls-not-applicable")
+            return None
+        c_ctrl = observe_calls(control, k, seed)
+        if not _same(c_fresh, c_ctrl):
+            if stats is not None:
+                stats("behaviour:calls-not-reproducible")
+            return None
+        if stats is not None:
+            stats("behaviour:calls-judged")
+        inp = dict(inp, input=k)
+        c_used = observe_calls(used, k, seed)
+        if not _same(c_used, c_fresh):
+            j = next((i for i, (a, b) in enumerate(zip(c_used, c_fresh)) if not _same(a, b)), 0)
+            return Failure(f"strength:{root}:history-applied", f"{label}: after the factor history {history} call #{j} records/returns something else than the "
+                           f"same transform scaled only by {last} (same seeded rng, same input): the result depends on the history",
+                           inp, _brief(c_fresh[j]), _brief(c_used[j]))
+        if last == 1:
+            c_never = observe_calls(never, k, seed)
+            if not _same(c_used, c_never):
+                j = next((i for i, (a, b) in enumerate(zip(c_used, c_never)) if not _same(a, b)), 0)
+                return Failure(f"strength:{root}:scale-one-applied", f"{label}: history {history} ends with factor 1 but call #{j} records/returns something "
+                               f"else than the constructed transform (same seeded rng, same input)", inp, _brief(c_never[j]), _brief(c_used[j]))
+        return None
+
+    # ---- scheduled transform over arbitrary wrapped transforms / configs ---------------------------
+    @staticmethod
+    def sched_configs(crng, kind):
+        """config objects (dicts with `kind`, lists of them) as the factory accepts them"""
+        ra = dict(kind="kd_rand_augment_custom", num_ops=2, magnitude=crng.choice([5, 7.5]), magnitude_std=crng.choice([1.25, float("inf")]),
+                  magnitude_min=crng.choice([0., 1.25]), magnitude_max=10., fill_color=(124, 116, 104), interpolation="bicubic")
+        gray = dict(kind="kd_random_grayscale", p=crng.choice([0.25, 0.5]))
+        rj = dict(kind="kd_random_color_jitter", p=1.0, brightness=0.5, contrast=0.25, saturation=0.5, hue=0.25)
+        sol = dict(kind="kd_random_solarize", p=0.5, threshold=128)
+        byol = dict(kind="byol_transform", size=8, norm=None, brightness=0.5, contrast=0.5, saturation=0.25, hue=0.125, sigma=(0.5, 2.0),
+                    color_jitter_p=1.0, gaussian_blur_p=0.5, grayscale_p=0.25, solarize_p=0.5)
+        gn = dict(kind="kd_additive_gaussian_noise", std=0.5, magnitude=crng.choice([0.75, 1.0]), magnitude_min=crng.choice([0., 0.25]))
+        gnn = dict(kind="kd_additive_gaussian_noise", std=0.5, magnitude=0.5, magnitude_std=0.25)
+        un = dict(kind="kd_additive_uniform_noise", magnitude=crng.choice([0.5, 1.0]))
+        rn = dict(kind="kd_random_additive_gaussian_noise", p=0.5, std=0.5, magnitude=0.75, magnitude_std=0.25)
+        if kind == "pil":
+            return crng.choice([[ra, gray], [rj, sol], byol, [byol], [ra], [[ra], gray], ra])
+        return crng.choice([[gn, un], gnn, [gnn], [rn, gn], [[un], rn], un])
+
+    def sched_case(self, case_seed, stats=None):
+        """One scheduled-transform case, reproducible from case_seed: the wrapped transform is an object tree, a list of objects or a
+        config (implicit composition built by the factory); simulated round-robin workers (deep copies, as a dataloader makes them); for
+        every sample of global batch b: reported strength == schedule(b), and the wrapped transform IS at schedule(b): same parameter
+        state and -- with the same seeded rng on the same input -- same recorded ctx, output and sampler draws as a fresh copy of the
+        wrapped transform in which every member with strength support was given schedule(b) directly."""
+        import numpy as np
+        import kappadata.transforms as T
+        crng = random.Random(f"sched:{case_seed}")
+        leaves = leaf_recipes(crng, exact=False)
+        kind = crng.choice(["pil", "tensor"])
+        pool = [l for l in leaves if l[0] in (PIL_LEAVES if kind == "pil" else TENSOR_LEAVES)]
+        W, B = crng.randint(1, 4), crng.randint(1, 3)
+        N = crng.randint(max(2, W), 2 * W + 3)
+        form = crng.choice(["object", "object", "list", "config"])
+        if form == "object":
+            label, arg = gen_tree(crng, pool, crng.randint(0, 2))
+        elif form == "list":
+            kids = [gen_tree(crng, pool, crng.randint(0, 1), subs=0.4) for _ in range(crng.randint(1, 3))]
+            label, arg = "list[" + ",".join(k[0] for k in kids) + "]", [k[1] for k in kids]
+        else:
+            arg = self.sched_configs(crng, kind)
+            label = "config:" + json.dumps(arg, default=str)
+        sched_cfg = crng.choice([None, None, dict(kind="linear_increasing_schedule"), dict(kind="linear_decreasing_schedule"),
+                                 dict(kind="cosine_increasing_schedule")])
+        inp = {"oracle": "scheduled", "case_seed": case_seed, "transform": label, "form": form, "schedule": sched_cfg, "W": W, "B": B,
+               "n_batches": N, "input": kind}
+        try:
+            base = T.KDScheduledTransform(transform=arg, schedule=copy.deepcopy(sched_cfg))
+        except Exception as e:
+            if stats is not None:
+                stats(f"scheduled-general:not-constructible:{type(e).__name__}")
+            return None
+        pristine = copy.deepcopy(base.transform)
+        reference = copy.deepcopy(base.schedule)
+        table = [reference.get_value(b, N) for b in range(N)]
+        if not all(0. <= v <= 1. for v in table):
+            return None
+        workers = []
+        for r in range(W):
+            w = copy.deepcopy(base)
+            w._worker_init_fn(r, W, batch_size=B, updates=N)
+            workers.append(w)
+        if stats is not None:
+            stats(f"scheduled-general:{form}")
+        for b in range(N):
+            w = workers[b % W]
+            expected = table[b]
+            for s_ in range(B):
+                seed = (case_seed * 7919 + 1000 * b + s_) % (2 ** 31)
+                where = dict(inp, b=b, s=s_)
+                try:
+                    fresh = scale_members_directly(copy.deepcopy(pristine), expected)
+                    control = scale_members_directly(copy.deepcopy(pristine), expected)
+                except Exception as e:
+                    if stats is not None:
+                        stats(f"scheduled-general:wrapped-raises:{type(e).__name__}")
+                    return None
+                c_w = observe_calls(w, kind, seed, n=1)[0]
+                c_f = observe_calls(fresh, kind, seed, n=1)[0]
+                c_c = observe_calls(control, kind, seed, n=1)[0]
+                if c_w[0] == "ok":
+                    ctx = dict(c_w[1])
+                    keys = [k for k in ctx if k not in c_f[1]] if c_f[0] == "ok" else [k for k in ctx if str(k).endswith(".strength")]
+                    key = getattr(w, "ctx_key", None)
+                    if key not in ctx:
+                        key = keys[0] if len(keys) == 1 else key
+                    got = ctx.pop(key, None)
+                    if got is None or got != expected:
+                        return Failure("scheduled:strength", f"sample {s_} of global batch {b} reports strength {got}, schedule({b})={expected} "
+                                       f"(num_workers={W}, batch_size={B}, wrapped {label})", where, expected, got)
+                    c_w = ("ok", ctx, c_w[2])
+                elif c_f[0] == "ok":
+                    return Failure("scheduled:applied", f"sample {s_} of global batch {b}: the scheduled transform raises {c_w[1]} where the wrapped "
+                                   f"transform scaled to schedule({b})={expected} works (wrapped {label})", where, "no exception", c_w[1])
+                try:
+                    st_w, st_f = current_state(to_model(w.transform)), current_state(to_model(fresh))
+                except Exception:
+                    st_w = st_f = None
+                if st_w != st_f:
+                    return Failure("scheduled:applied-state", f"sample {s_} of global batch {b} (num_workers={W}, batch_size={B}): the wrapped transform "
+                                   f"({label}) is not at strength schedule({b})={expected} when the sample is produced", where, st_f, st_w)
+                if _same(c_f, c_c):
+                    if stats is not None:
+                        stats("scheduled-general:calls-judged" if c_f[0] == "ok" else "scheduled-general:calls-exc")
+                    if not _same(c_w, c_f):
+                        return Failure("scheduled:applied-sampled", f"sample {s_} of global batch {b} (num_workers={W}, batch_size={B}): reported strength "
+                                       f"{expected}, but the sample is not transformed like by the wrapped transform ({label}) scaled to {expected} "
+                                       f"(same seeded rng, same input)", where, _brief(c_f), _brief(c_w))
+                d_f, d_c = observe_samplers(fresh, seed), observe_samplers(control, seed)
+                if d_f and _same(d_f, d_c):
+                    d_w = observe_samplers(w.transform, seed)
+                    if not _same([d for _, _, d in d_w], [d for _, _, d in d_f]):
+                        return Failure("scheduled:applied-sampled", f"after sample {s_} of global batch {b} (num_workers={W}, batch_size={B}): the magnitude "
+                                       f"samplers of the wrapped transform ({label}) do not draw like the wrapped transform scaled to {expected}",
+                                       where, [d for _, _, d in d_f], [d for _, _, d in d_w])
+        return None
+
 
     # ---- scheduled transform ----------------------------------------------------------------
     def scheduled(self, res):
@@ -432,7 +988,20 @@ class C15(PropertyCheck):
         reqs, reals = [], []
         for W, B in combos:
             N = self.rng.randint(W, 2 * W + 3)
-            base = T.KDScheduledTransform(transform=T.KDColorJitter(0.5, 0.5, 0.25, 0.125))
+            wrapped = T.KDColorJitter(0.5, 0.5, 0.25, 0.125)
+            wrapped_is_tree = False
+            if self.rng.random() < 0.5:
+                # any tree (the schedule's values are not dyadic: trees with the integer solarize cut are left out, the rest is compared to 1e-9)
+                pool = [l for l in leaf_recipes(self.rng) if l[0] in TENSOR_LEAVES]
+                for _ in range(5):
+                    lbl, cand = gen_tree(self.rng, pool, self.rng.randint(0, 2))
+                    try:
+                        if '"solI"' not in json.dumps(to_model(cand)):
+                            wrapped, wrapped_is_tree = cand, True
+                            break
+                    except Unmodelled:
+                        continue
+            base = T.KDScheduledTransform(transform=wrapped)
             workers = []
             for r in range(W):
                 w = copy.deepcopy(base)
@@ -446,7 +1015,12 @@ class C15(PropertyCheck):
                 batch = []
                 for s_ in range(B):
                     ctx = {}
-                    w(x, ctx=ctx)
+                    try:
+                        w(_input("tensor") if wrapped_is_tree else x.clone(), ctx=ctx)
+                    except Exception:
+                        # what the wrapped transform does to pixels is not part of this comparison; the strength is reported and applied before
+                        if w.ctx_key not in ctx:
+                            raise
                     batch.append({"strength": rat(fr(ctx[w.ctx_key])), "applied": to_model(w.transform)})
                 real.append(batch)
             reqs.append({"op": "st.loader", "W": W, "B": B, "N": N, "t": to_model(base.transform), "schedule": table})
@@ -557,15 +1131,26 @@ class C15(PropertyCheck):
         rng = random.Random(self.seed + 3)
         leaves = leaf_recipes(rng)
         out = []
+        rounds = 0
         while time.time() - t0 < budget_s and not out:
             for label, thunk in leaves:
                 try:
                     f = self.oracle(label, thunk(), rng)
+                    if f is None:
+                        label2, t2 = gen_tree(rng, leaves, rng.randint(1, 2), subs=0.5)
+                        f = self.oracle(label2, t2, rng)
                 except Unmodelled:
                     continue
                 if f:
                     out.append(f)
                     break
+            for i in range(60):
+                if out or time.time() - t0 > budget_s:
+                    break
+                f = self.behaviour_case(rng.getrandbits(31), i + 60 * rounds if rounds < 2 else None) or self.sched_case(rng.getrandbits(31))
+                if f:
+                    out.append(f)
+            rounds += 1
         return out
 
     def replay_input(self, inp):
@@ -582,6 +1167,15 @@ class C15(PropertyCheck):
             if t.n_batches != expect:
                 return Failure("scheduled:n-batches", f"n_batches={t.n_batches}, the run has {expect} batches", inp, expect, t.n_batches)
             return None
+        if inp.get("oracle") == "state":
+            try:
+                return self.state_case(inp["case_seed"], inp.get("leaf"))
+            except Unmodelled:
+                return None
+        if inp.get("oracle") == "behaviour":
+            return self.behaviour_case(inp["case_seed"], inp.get("forced"))
+        if inp.get("oracle") == "scheduled":
+            return self.sched_case(inp["case_seed"])
         rng = random.Random(1)
         for label, thunk in leaf_recipes(rng):
             if label == inp.get("tree"):
